@@ -12,6 +12,24 @@ Definition CERT0 : bytes := hex "0101000001020304050607080fedcba0987654329c9f416
 Definition CERT1 : bytes := hex "0202000001020304050607090fedcba0987654313d08186c518b501f5bed43a749500d2b814475bc09c755335d2c9da60310b395a7e64b1d8f42e11ca5e984d673adb0703a164b0872d12eb2a6004616abb2b2dd000d040101640702040a0000075dd24b640677316df6e443997c443cc18a23b8df951871b1c4fab4263466c1a3f5b92aab2ce59ec6ab84ff3c7cc6c896c520f3afc9fa79d82054bdc3665e4624".
 Definition CERT2 : bytes := hex "01030000010203040506070a0fedcba098765430e2aef9ad3b7111ca9fea5fd3118b21e3307300a35ab33558308bdec74273c0fac8fe5d507f207a382123d83514cfc112fdf25d7f2475d37cda0efddbd730db37000246ec2ecf430541671f29314deae47b8b1bcd7a2a6d120045b758615bf046fb06ebfeeff3fadd6bba79d0b6a975a4d803afb78907a57b31eb07b6533e8661419a".
 
+(* frequent field values of generated intents (same table in harness/cmd/c06/wire.go): case files stay small;
+   anything else is written out *)
+Definition S1 : bytes := hex "746172676574".
+Definition S2 : bytes := hex "742e6578616d706c65".
+Definition S3 : bytes := hex "74".
+Definition S0 : bytes := hex "".
+Definition S4 : bytes := hex "75736572".
+Definition S5 : bytes := hex "726f6f74".
+Definition S6 : bytes := hex "7532".
+Definition S7 : bytes := hex "6563686f206869".
+Definition S8 : bytes := hex "7375646f207265626f6f74".
+Definition S9 : bytes := hex "6c73202d6c61202f".
+Definition S10 : bytes := hex "6563686f2068656c6c6f20776f726c64".
+Definition T1 : N := 1700000000.
+Definition T2 : N := 1700003600.
+Definition T3 : N := 4611686018427387907.
+Definition T4 : N := 9223372036854775807.
+
 (* scripted inputs *)
 Definition SE := SetupEarlyFail.
 Definition SC := SetupCb.
@@ -85,6 +103,8 @@ Fixpoint p_compare (tb : list intent) (st : pstate) (rs : list creq) (obs : list
   | _, _ => false
   end.
 Definition c06p_case := (list intent * list creq * list (list oev) * N)%type.
+(* typed builders: the generated files apply these instead of writing bare tuples (elaborates several times faster) *)
+Definition PC (tb : list intent) (rs : list creq) (obs : list (list oev)) (ab : N) : c06p_case := (tb, rs, obs, ab).
 Definition c06p_ok (c : c06p_case) : bool :=
   let '(tb, rs, obs, abnormal) := c in (abnormal =? 0) && p_compare tb p_init rs obs.
 
@@ -101,6 +121,7 @@ Fixpoint e_compare (tb : list intent) (st : pstate * tstate) (rs : list cereq) (
   | _, _ => false
   end.
 Definition c06e_case := (list intent * list cereq * list (list oev) * N)%type.
+Definition EC (tb : list intent) (rs : list cereq) (obs : list (list oev)) (ab : N) : c06e_case := (tb, rs, obs, ab).
 Definition c06e_ok (c : c06e_case) : bool :=
   let '(tb, rs, obs, abnormal) := c in (abnormal =? 0) && e_compare tb (p_init, t_init) rs obs.
 
@@ -121,5 +142,6 @@ Fixpoint t_compare (tb : list intent) (ts : tstate) (ms : list cmsg) (obs : list
   | _, _ => false
   end.
 Definition c06t_case := (list intent * list cmsg * list (list oev) * N)%type.
+Definition MC (tb : list intent) (ms : list cmsg) (obs : list (list oev)) (ab : N) : c06t_case := (tb, ms, obs, ab).
 Definition c06t_ok (c : c06t_case) : bool :=
   let '(tb, ms, obs, abnormal) := c in (abnormal =? 0) && t_compare tb t_init ms obs.
